@@ -2,6 +2,7 @@ package main
 
 import (
 	"context"
+	"encoding/json"
 	"fmt"
 	"reflect"
 	"runtime/debug"
@@ -31,22 +32,159 @@ type dispatcher interface {
 }
 
 type loopServant struct {
-	disp dispatcher
-	stub interface{}
-	id   int32
+	disp    dispatcher
+	stub    interface{}
+	id      int32
+	version int16                  // protocol version the request is handed to the dispatcher in: 1 TARS, 3 TUP, 5 JSON
+	funcs   map[string]*sch.IfFunc // by IDL name
+	jsonIns map[string]interface{} // JSON version: the Go values of the in parameters of the call being made
+	skip    string                 // set when the call cannot be expressed in the chosen version
 }
 
 func (l *loopServant) Name() string { return "Verif.C16.LoopObj" }
 func (l *loopServant) TarsInvoke(ctx context.Context, cType byte, fn string, buf []byte, status map[string]string, rctx map[string]string, resp *requestf.ResponsePacket) error {
 	l.id++
-	req := requestf.RequestPacket{IVersion: 1, CPacketType: int8(cType), IRequestId: l.id, SServantName: l.Name(), SFuncName: fn,
+	req := requestf.RequestPacket{IVersion: l.version, CPacketType: int8(cType), IRequestId: l.id, SServantName: l.Name(), SFuncName: fn,
 		SBuffer: tools.ByteToInt8(buf), ITimeout: 3000, Context: rctx, Status: status}
-	return l.disp.Dispatch(current.ContextWithTarsCurrent(context.Background()), l.stub, &req, resp, true)
+	f := l.funcs[fn]
+	switch l.version {
+	case 3:
+		// the same arguments as named attributes, each encoded under tag 0
+		nodes, err := rc.ParseFields(buf)
+		if err != nil || f == nil {
+			l.skip = "proxy buffer unreadable"
+			return fmt.Errorf("loop: %s", l.skip)
+		}
+		var b []byte
+		cnt := 0
+		var body []byte
+		for i, p := range f.Params {
+			if p.Out {
+				continue
+			}
+			var n *rc.Node
+			for _, x := range nodes {
+				if x.Tag == i+1 {
+					n = x
+				}
+			}
+			if n == nil {
+				l.skip = "proxy buffer lacks parameter " + p.Name
+				return fmt.Errorf("loop: %s", l.skip)
+			}
+			body = rc.AppendString(body, []byte(p.Name), 0)
+			body = rc.AppendSimpleList(body, rc.Reencode(nil, n, 0), 1)
+			cnt++
+		}
+		b = rc.AppendHead(b, rc.TMap, 0)
+		b = rc.AppendInt(b, int64(cnt), 0)
+		req.SBuffer = tools.ByteToInt8(append(b, body...))
+	case 5:
+		doc, err := json.Marshal(l.jsonIns)
+		if err != nil {
+			l.skip = "arguments not expressible in JSON"
+			return fmt.Errorf("loop: %s", l.skip)
+		}
+		req.SBuffer = tools.ByteToInt8(doc)
+	}
+	if err := l.disp.Dispatch(current.ContextWithTarsCurrent(context.Background()), l.stub, &req, resp, true); err != nil {
+		return err
+	}
+	// hand the answer to the proxy in the form it reads (TARS version: return value under tag 0,
+	// out parameters under their positions)
+	switch l.version {
+	case 3:
+		nodes, err := rc.ParseFields(tools.Int8ToByte(resp.SBuffer))
+		if err != nil || len(nodes) != 1 || nodes[0].Type != rc.TMap {
+			return fmt.Errorf("loop: the TUP response is not one attribute map (%v)", err)
+		}
+		attr := map[string][]byte{}
+		for i, k := range nodes[0].Keys {
+			attr[string(k.Bytes)] = nodes[0].Vals[i].Bytes
+		}
+		var out []byte
+		put := func(key string, tag int) error {
+			raw, ok := attr[key]
+			if !ok {
+				return fmt.Errorf("loop: the TUP response lacks attribute %q", key)
+			}
+			n, err := rc.ParseOne(raw)
+			if err != nil {
+				return fmt.Errorf("loop: attribute %q of the TUP response is not one well-formed field: %v", key, err)
+			}
+			out = rc.Reencode(out, n, tag)
+			return nil
+		}
+		if f.RetT != nil {
+			if err := put("", 0); err != nil {
+				return err
+			}
+		}
+		for i, p := range f.Params {
+			if p.Out {
+				if err := put(p.Name, i+1); err != nil {
+					return err
+				}
+			}
+		}
+		resp.SBuffer = tools.ByteToInt8(out)
+	case 5:
+		var doc map[string]json.RawMessage
+		if err := json.Unmarshal(tools.Int8ToByte(resp.SBuffer), &doc); err != nil {
+			return fmt.Errorf("loop: the JSON response is not a document: %v", err)
+		}
+		var out []byte
+		put := func(key string, gt reflect.Type, t *rc.Type, tag int) error {
+			raw, ok := doc[key]
+			if !ok {
+				return fmt.Errorf("loop: the JSON response lacks member %q", key)
+			}
+			v := reflect.New(gt)
+			if err := json.Unmarshal(raw, v.Interface()); err != nil {
+				return fmt.Errorf("loop: member %q of the JSON response does not fit its type: %v", key, err)
+			}
+			out = rc.EncodeValue(out, t, sch.FromGo(t, v.Elem()), tag, rc.EncOpt{})
+			return nil
+		}
+		if f.RetT != nil {
+			if err := put("tars_ret", f.RetGoT, f.RetT, 0); err != nil {
+				return err
+			}
+		}
+		for i, p := range f.Params {
+			if p.Out {
+				if err := put(p.Name, p.GoT, p.T, i+1); err != nil {
+					return err
+				}
+			}
+		}
+		resp.SBuffer = tools.ByteToInt8(out)
+	}
+	return nil
 }
 func (l *loopServant) TarsSetTimeout(t int)                  {}
 func (l *loopServant) TarsSetProtocol(model.Protocol)        {}
 func (l *loopServant) Endpoints() []*endpoint.Endpoint       { return nil }
 func (l *loopServant) SetPushCallback(callback func([]byte)) {}
+
+// throughJSON returns what encoding/json makes of v (type t / Go type gt) on a round trip, or false
+// when JSON cannot carry it (NaN, maps keyed by structs, ...).
+func throughJSON(t *rc.Type, gt reflect.Type, v *rc.Value) (*rc.Value, bool) {
+	gv := reflect.New(gt)
+	sch.ToGo(t, v, gv.Elem())
+	raw, err := json.Marshal(gv.Interface())
+	if err != nil {
+		return nil, false
+	}
+	back := reflect.New(gt)
+	if resetter, ok := back.Interface().(interface{ ResetDefault() }); ok {
+		resetter.ResetDefault()
+	}
+	if json.Unmarshal(raw, back.Interface()) != nil {
+		return nil, false
+	}
+	return sch.FromGo(t, back.Elem()), true
+}
 
 type directive struct {
 	fn       *sch.IfFunc
@@ -97,24 +235,45 @@ func interfacesPhase(u *sch.Universe, n int) {
 			d.received = append(d.received, got)
 			return nil
 		})
-		ss.SetServant(&loopServant{disp: disp, stub: stub})
+		loop := &loopServant{disp: disp, stub: stub, version: 1, funcs: map[string]*sch.IfFunc{}}
+		ss.SetServant(loop)
 		driven++
 		g := sch.NewGen(vlib.SeedRand(1, "c16if-"+e.Name))
 		g.MaxDepth = 3
 		pv := reflect.ValueOf(proxy)
 		for _, fn := range funcs {
+			loop.funcs[fn.Name] = fn
+		}
+		for _, fn := range funcs {
 			m := pv.MethodByName(fn.GoName + "WithContext")
-			for k := 0; k < n; k++ {
+			for k := 0; k < 2*n; k++ {
 				mode := k % sch.NumModes
+				// every call in the TARS version; the second half also as TUP attribute sets and as
+				// JSON documents (the dispatcher's other two decoding branches)
+				loop.version, loop.skip, loop.jsonIns = 1, "", nil
+				if k >= n {
+					loop.version = []int16{3, 5}[k%2]
+				}
+				vname := map[int16]string{1: "tars", 3: "tup", 5: "json"}[loop.version]
 				g.Budget = 150
 				d := &directive{fn: fn}
 				args := []reflect.Value{reflect.ValueOf(context.Background())}
-				var sent []*rc.Value
+				var sent, wantOuts []*rc.Value
+				var wantRet *rc.Value
 				var outPtrs []reflect.Value
 				for _, p := range fn.Params {
 					ptr := reflect.New(p.GoT)
 					if p.Out {
-						d.outs = append(d.outs, g.Value(p.T, mode, 1, false, nil))
+						ov := g.Value(p.T, mode, 1, false, nil)
+						d.outs = append(d.outs, ov)
+						if loop.version == 5 {
+							jv, ok := throughJSON(p.T, p.GoT, ov)
+							if !ok {
+								loop.skip = "result not expressible in JSON"
+							}
+							ov = jv
+						}
+						wantOuts = append(wantOuts, ov)
 						if k%3 == 2 {
 							sch.ToGo(p.T, g.Value(p.T, sch.ModeNonZero, 1, false, nil), ptr.Elem()) // an out variable in use
 						}
@@ -123,8 +282,24 @@ func interfacesPhase(u *sch.Universe, n int) {
 						continue
 					}
 					v := g.Value(p.T, mode, 1, false, nil)
-					sent = append(sent, v)
 					sch.ToGo(p.T, v, ptr.Elem())
+					if loop.version == 5 {
+						// JSON carries what encoding/json makes of the value: judge against that
+						if loop.jsonIns == nil {
+							loop.jsonIns = map[string]interface{}{}
+						}
+						loop.jsonIns[p.Name] = ptr.Elem().Interface()
+						if raw, err := json.Marshal(ptr.Elem().Interface()); err == nil {
+							back := reflect.New(p.GoT)
+							if resetter, ok := back.Interface().(interface{ ResetDefault() }); ok {
+								resetter.ResetDefault()
+							}
+							if json.Unmarshal(raw, back.Interface()) == nil {
+								v = sch.FromGo(p.T, back.Elem())
+							}
+						}
+					}
+					sent = append(sent, v)
 					if p.Ptr {
 						args = append(args, ptr)
 					} else {
@@ -133,10 +308,25 @@ func interfacesPhase(u *sch.Universe, n int) {
 				}
 				if fn.RetT != nil {
 					d.ret = g.Value(fn.RetT, mode, 1, false, nil)
+					wantRet = d.ret
+					if loop.version == 5 {
+						jv, ok := throughJSON(fn.RetT, fn.RetGoT, d.ret)
+						if !ok {
+							loop.skip = "result not expressible in JSON"
+						}
+						wantRet = jv
+					}
+				}
+				if loop.skip != "" {
+					em.Add("generated_interface_calls_not_expressible_in_"+vname, 1)
+					continue
 				}
 				cur = d
 				locus := e.Name + "." + fn.Name
-				wit := map[string]interface{}{"interface": e.Name, "function": fn.Name, "value_mode": mode}
+				if loop.version != 1 {
+					locus += ":" + vname
+				}
+				wit := map[string]interface{}{"interface": e.Name, "function": fn.Name, "value_mode": mode, "protocol_version": vname}
 				var rets []reflect.Value
 				pan := func() (p string) {
 					defer func() {
@@ -154,6 +344,10 @@ func interfacesPhase(u *sch.Universe, n int) {
 					wit["panic"] = pan
 					em.Violation("generated-call-panics", locus, "a call through the generated proxy and dispatcher panicked: "+strings.SplitN(pan, "\n", 2)[0], wit)
 					break
+				}
+				if loop.skip != "" {
+					em.Add("generated_interface_calls_not_expressible_in_"+vname, 1)
+					continue
 				}
 				if e := rets[len(rets)-1]; !e.IsNil() {
 					em.Violation("generated-call-fails", locus, fmt.Sprintf("a call through the generated proxy and dispatcher of %s failed: %v", locus, e.Interface()), wit)
@@ -185,7 +379,7 @@ func interfacesPhase(u *sch.Universe, n int) {
 					if !p.Out {
 						continue
 					}
-					if diff := rc.Diff(p.T, sch.FromGo(p.T, outPtrs[oi].Elem()), d.outs[oi], p.Name); diff != "" {
+					if diff := rc.Diff(p.T, sch.FromGo(p.T, outPtrs[oi].Elem()), wantOuts[oi], p.Name); diff != "" {
 						wit["difference"] = diff
 						wit["out_variable_in_use_before_the_call"] = k%3 == 2
 						em.Violation("generated-call-result-changed", locus, fmt.Sprintf("the caller got another value than the implementation produced for out parameter %q: %s", p.Name, diff), wit)
@@ -198,7 +392,7 @@ func interfacesPhase(u *sch.Universe, n int) {
 					break
 				}
 				if fn.RetT != nil {
-					if diff := rc.Diff(fn.RetT, sch.FromGo(fn.RetT, rets[0]), d.ret, "return"); diff != "" {
+					if diff := rc.Diff(fn.RetT, sch.FromGo(fn.RetT, rets[0]), wantRet, "return"); diff != "" {
 						wit["difference"] = diff
 						em.Violation("generated-call-result-changed", locus, "the caller got another return value than the implementation produced: "+diff, wit)
 						break
